@@ -131,6 +131,48 @@ def calculate_treelikelihood_tip_states_discrete(
     )
 
 
+def _category_scaler(partial: torch.Tensor) -> torch.Tensor:
+    r"""Scaling factors [...,K,1,N] of partials [...,K,S,N]: one per rate category
+    and site (a category whose partials are all zero is left as it is).
+
+    A scaler shared by the categories loses a category that is more than 300 orders
+    of magnitude below another one, e.g. the variable categories next to an
+    invariant category in a large constant clade.
+    """
+    scaler, _ = torch.max(partial, -2, keepdim=True)
+    return torch.where(scaler > 0, scaler, torch.ones_like(scaler))
+
+
+def _rescaled_log_likelihood(
+    root_partials: torch.Tensor,
+    scalers: list,
+    weights: torch.Tensor,
+    freqs: torch.Tensor,
+    props: torch.Tensor,
+) -> torch.Tensor:
+    r"""Log likelihood from rescaled root partials [...,K,S,N] and the list of
+    scaling factors [...,K,1,N] collected during the traversal."""
+    category_likelihoods = freqs.unsqueeze(-3) @ root_partials
+    log_scalers = torch.cat(scalers, -2).log().sum(dim=-2, keepdim=True)
+    # categories with likelihood zero do not take part
+    log_scalers = torch.where(
+        category_likelihoods > 0,
+        log_scalers,
+        torch.full_like(log_scalers, -float('inf')),
+    )
+    log_scaler_max, _ = torch.max(log_scalers.detach(), -3, keepdim=True)
+    log_scaler_max = torch.where(
+        torch.isinf(log_scaler_max), torch.zeros_like(log_scaler_max), log_scaler_max
+    )
+    site_likelihoods = torch.sum(
+        props * category_likelihoods * (log_scalers - log_scaler_max).exp(), dim=-3
+    )
+    return torch.sum(
+        (torch.log(site_likelihoods) + log_scaler_max.squeeze(-3)) * weights,
+        dim=-1,
+    )
+
+
 def calculate_treelikelihood_discrete_safe(
     partials: list,
     weights: torch.Tensor,
@@ -165,21 +207,12 @@ def calculate_treelikelihood_discrete_safe(
             partial = (mats[..., left, :, :, :] @ partials[left]) * (
                 mats[..., right, :, :, :] @ partials[right]
             )
-            scaler, _ = torch.max(
-                partial.view(*partial.shape[:-3], -1, *partial.shape[-1:]),
-                -2,
-                keepdim=True,
-            )
+            scaler = _category_scaler(partial)
             scalers.append(scaler)
-            partials[node] = partial / scaler.unsqueeze(-2)
+            partials[node] = partial / scaler
             rescaled[node] = True
-    return torch.sum(
-        (
-            torch.log(freqs @ torch.sum(props * partials[post_indexing[-1][0]], dim=-3))
-            + torch.cat(scalers, -2).log().sum(dim=-2).unsqueeze(-2)
-        )
-        * weights,
-        dim=-1,
+    return _rescaled_log_likelihood(
+        partials[post_indexing[-1][0]], scalers, weights, freqs, props
     )
 
 
@@ -206,18 +239,11 @@ def calculate_treelikelihood_discrete_rescaled(
         partial = (mats[..., left, :, :, :] @ partials[left]) * (
             mats[..., right, :, :, :] @ partials[right]
         )
-        scaler, _ = torch.max(
-            partial.view(*partial.shape[:-3], -1, *partial.shape[-1:]), -2, keepdim=True
-        )
+        scaler = _category_scaler(partial)
         scalers.append(scaler)
-        partials[node] = partial / scaler.unsqueeze(-2)
-    return torch.sum(
-        (
-            torch.log(freqs @ torch.sum(props * partials[post_indexing[-1][0]], dim=-3))
-            + torch.cat(scalers, -2).log().sum(dim=-2).unsqueeze(-2)
-        )
-        * weights,
-        dim=-1,
+        partials[node] = partial / scaler
+    return _rescaled_log_likelihood(
+        partials[post_indexing[-1][0]], scalers, weights, freqs, props
     )
 
 
@@ -263,18 +289,11 @@ def calculate_treelikelihood_tip_states_discrete_rescaled(
 
         partial = p_left * p_right
 
-        scaler, _ = torch.max(
-            partial.view(*partial.shape[:-3], -1, *partial.shape[-1:]), -2, keepdim=True
-        )
+        scaler = _category_scaler(partial)
         scalers.append(scaler)
-        partials[node] = partial / scaler.unsqueeze(-2)
-    return torch.sum(
-        (
-            torch.log(freqs @ torch.sum(props * partials[post_indexing[-1][0]], dim=-3))
-            + torch.cat(scalers, -2).log().sum(dim=-2).unsqueeze(-2)
-        )
-        * weights,
-        dim=-1,
+        partials[node] = partial / scaler
+    return _rescaled_log_likelihood(
+        partials[post_indexing[-1][0]], scalers, weights, freqs, props
     )
 
 
